@@ -86,6 +86,27 @@ theorem wrong_version_silently_ignored (b0 : UInt8) (r : Bytes) (h : b0.toNat / 
   · rfl
   · simp [h]
 
+/-- the same for the gate of a live session with any MTU: an over-long datagram is refused unparsed -/
+theorem rejected_never_dispatched_session (mtu : Nat) (bs : Bytes) (h : Spec.decode .udp bs = none) (m : Msg) :
+    gateMtu mtu bs ≠ .dispatch m := by
+  intro hd
+  simp only [gateMtu] at hd
+  cases hg : gate .udp bs with
+  | drop => rw [hg] at hd; simp at hd
+  | bad => rw [hg] at hd; simp only [] at hd; split at hd <;> simp at hd
+  | rst mid => rw [hg] at hd; simp only [] at hd; split at hd <;> simp at hd
+  | dispatch m' => exact absurd hg (rejected_never_dispatched .udp bs h m')
+
+theorem oversize_datagram_never_dispatched (mtu : Nat) (bs : Bytes) (h : bs.length > mtu) (m : Msg) :
+    gateMtu mtu bs ≠ .dispatch m := by
+  intro hd
+  simp only [gateMtu] at hd
+  cases hg : gate .udp bs with
+  | drop => rw [hg] at hd; simp at hd
+  | bad => rw [hg] at hd; simp [h] at hd
+  | rst mid => rw [hg] at hd; simp [h] at hd
+  | dispatch m' => rw [hg] at hd; simp [h] at hd
+
 example : gate .udp [0x40, 0x01, 0x12, 0x34, 0xff] = .rst 0x1234 := by decide
 example : gate .udp [0x40, 0x01, 0x12, 0x34, 0xb1, 0x61] = .dispatch ⟨0, 1, 0x1234, [], [(11, [0x61])], []⟩ := by decide
 example : gate .udp [0x80, 0x01, 0x12, 0x34] = .drop := by decide
